@@ -21,7 +21,7 @@ ASSUMPTIONS = ["cluster names are drawn without ':' and '#': with those the nami
                "module and function names are Python identifiers", "versions are non-empty"]
 COMPONENTS = {"real": ["FunctionReference naming/parsing, external-reference fallback, metadata decoding, filesystem store", "process lifetimes via fork"],
               "stub": ["generated two-function program", "uuid4, clock"]}
-REACH = ["names_cases", "evolution_cases", "versions_with_colon", "versions_with_hash", "default_cluster", "named_cluster",
+REACH = ["inprocess_evolutions", "names_cases", "evolution_cases", "versions_with_colon", "versions_with_hash", "default_cluster", "named_cluster",
          "external_refs_seen", "static_method_functions"]
 
 VER_ALPHA = "abzAZ019._-+=:#@"
@@ -49,7 +49,12 @@ def gen_case(seed):
         return {"seed": seed, "kind": "names", "cluster": cluster, "module": mod, "fn": fn, "static": static, "version": ver,
                 "cache": cache, "auto": rng.random() < 0.15}
     evo = rng.choice(["edited", "removed", "renamed", "made-plain", "re-clustered", "unchanged", "edited-global"])
-    return {"seed": seed, "kind": "evolution", "cluster": cluster, "module": mod, "cache": cache, "evolution": evo,
+    # the same change may first happen inside the running process, by an event that runs no decorator (a module variable is
+    # re-bound, the function is deleted from its module), after the entry was already queried once there
+    # (only without a memory cache: a cached Memento object is a snapshot of the moment it was decoded - its references keep
+    # the flags they had then; that is not "reading stored metadata" and the statement is not applied to it, see DESIGN 9.7)
+    inproc = evo in ("edited-global", "removed") and not cache and rng.random() < 0.75
+    return {"seed": seed, "kind": "evolution", "cluster": cluster, "module": mod, "cache": cache, "evolution": evo, "inproc": inproc,
             "caller_version": rng.choice(["p1", "1:2", "a#b", "7"]), "callee_explicit": rng.random() < 0.4, "callee_ver_base": rng.choice(["c", "c", "1::", "a:b#", "x.link"]),
             "other_cluster": "oc" + gen_ident(rng), "nested": rng.random() < 0.4}
 
@@ -185,6 +190,19 @@ def run_evo(root, c, tag):
         importlib.invalidate_caches()
         mod = importlib.import_module(".".join(c["module"]))
         _ops(mod.caller, c["cluster"], side, emit, tag, None)
+        if tag == "first" and c.get("inproc"):
+            if c["evolution"] == "edited-global":
+                mod.GV = 2
+            else:
+                del mod.callee
+            for name, f in (("memento", lambda: _memento_summary(mod.caller.memento(1))),
+                            ("list_mementos", lambda: sorted(_memento_summary(x)["qn"] for x in mod.caller.list_mementos())),
+                            ("memento", lambda: _memento_summary(mod.caller.memento(1)))):
+                try:
+                    emit({"tag": "inproc", "op": name, "ok": f(), "runs": []})
+                except BaseException as e:  # noqa
+                    import traceback
+                    emit({"tag": "inproc", "op": name, "exc": [type(e).__name__, str(e)[:200], traceback.format_exc()[-900:]], "runs": []})
     return core.lifetime(body)[0]
 
 
@@ -259,7 +277,27 @@ def execute(c):
                 if "exc" in e:
                     bad("operation-raised", dict(cl_feat, op=e["op"], exc=e["exc"][0], evolution="none"), {"exc": e["exc"]})
                     break
-            first = {e["op"]: e for e in ev1}
+            first = {e["op"]: e for e in ev1 if e["tag"] == "first"}
+            for e in ev1:
+                if e["tag"] != "inproc" or viol or "exc" in e:
+                    continue
+                stats["inprocess_evolutions"] = 1
+                if e["op"] == "list_mementos":
+                    if e["ok"] != first["list_mementos"]["ok"]:
+                        bad("listing-inexact", dict(cl_feat, evolution=evo, listing="list_mementos", delivery="in-process"), {"got": e["ok"]})
+                    continue
+                if e["ok"] is None:
+                    bad("current-entry-not-served", dict(cl_feat, evolution=evo, nested=c["nested"], op="memento", delivery="in-process"), {"got": e})
+                    continue
+                for q, ext in e["ok"]["invocations"] + e["ok"]["deps"]:
+                    is_callee = (":callee#" in q) or q.endswith(":callee")
+                    gone = is_callee and (evo == "removed" or not c["callee_explicit"])
+                    if ext:
+                        stats["external_refs_seen"] = stats.get("external_refs_seen", 0) + 1
+                    if ext != gone:
+                        bad("external-flag-wrong", dict(cl_feat, evolution=evo, expected_external=gone, delivery="in-process"),
+                            {"ref": q, "external": ext, "memento": e["ok"]})
+                        break
             if not viol:
                 write_module(root, c["module"], evo_program(c, 2))
                 ev2 = run_evo(root, c, "second")
